@@ -1,7 +1,7 @@
 (* C19 proofs.  Part A: bit-pattern algebra (no Flocq content, closed under the global context).
    Part B: symmetry of sin/cos for arbitrary float primitives.  Part C: table facts and range.
    Part D: Q32.32.  Part E: PRNG. *)
-From Coq Require Import NArith ZArith List Bool Lia.
+From Coq Require Import NArith ZArith List Bool Lia Reals Lra.
 From Flocq Require Import Core IEEE754.BinarySingleNaN IEEE754.Binary IEEE754.Bits.
 From Echo Require Import Model.TrigTable Model.Scalar.
 Import ListNotations.
@@ -254,6 +254,37 @@ Proof.
     + unfold sin_cos. rewrite is_finite_fneg, Hf by exact H1. reflexivity.
 Qed.
 
+(* every component of sin_cos_f32 on a finite angle is 0, a quarter-wave interpolation value, or its negation *)
+Definition signed_interp (v : N) : Prop :=
+  v = 0 \/ exists a, v = sin_qtr_interp P a \/ v = fneg (sin_qtr_interp P a).
+
+Lemma trig_core_signed : forall m, signed_interp (fst (trig_core m)) /\ signed_interp (snd (trig_core m)).
+Proof.
+  intro m. unfold trig_core.
+  destruct (p_lt P _ FRAC_PI_2); [|destruct (p_lt P _ PI); [|destruct (p_lt P _ (FRAC_3PI_2 P))]];
+    cbn [fst snd]; split; right; eexists; (left; reflexivity) || (right; reflexivity).
+Qed.
+
+Lemma signed_interp_czero : forall v, signed_interp v -> signed_interp (czero v).
+Proof. intros v H. unfold czero. destruct (is_zero v); [left; reflexivity | exact H]. Qed.
+
+Lemma signed_interp_neg : forall v, signed_interp v -> signed_interp (czero (fneg v)).
+Proof.
+  intros v [H|[a [H|H]]].
+  - subst v. left. reflexivity.
+  - apply signed_interp_czero. right. exists a. right. rewrite H. reflexivity.
+  - apply signed_interp_czero. right. exists a. left. rewrite H. apply fneg_involutive. apply interp_range.
+Qed.
+
+Lemma sin_cos_signed_interp_l : forall x, is_finite x = true ->
+  signed_interp (fst (sin_cos P x)) /\ signed_interp (snd (sin_cos P x)).
+Proof.
+  intros x Hf. rewrite sin_cos_shape by exact Hf. cbn [fst snd].
+  destruct (trig_core_signed (fabs x)) as [H1 H2]. split.
+  - destruct (sign_of x); [apply signed_interp_neg | apply signed_interp_czero]; exact H1.
+  - apply signed_interp_czero. exact H2.
+Qed.
+
 End Sym.
 
 (* ------------------------------------------------------------------ Part C: the Flocq instance *)
@@ -283,6 +314,34 @@ Lemma flocq_prims_wf : prims_wf flocq_prims.
 Proof.
   unfold prims_wf, flocq_prims; cbn.
   repeat split; intros; try apply bits32_range; auto using f_rem_euclid_range, f_truncf_range.
+Qed.
+
+Lemma bits32_b32 : forall b, b < TWO32 -> bits32 (b32 b) = b.
+Proof.
+  intros b Hb. unfold bits32, b32, bits_of_b32, b32_of_bits.
+  rewrite (bits_of_binary_float_of_bits 23 8 eq_refl eq_refl eq_refl).
+  - apply N2Z.id.
+  - change (2 ^ (23 + 8 + 1))%Z with 4294967296%Z. unfold TWO32 in Hb. lia.
+Qed.
+
+(* `x + 0.0` through the IEEE adder is the identity except that -0.0 becomes +0.0 *)
+Lemma f_add_pos_zero : forall b, b < TWO32 -> f_add b 0 = add_pos_zero b.
+Proof.
+  intros b Hb. unfold add_pos_zero. destruct (N.eqb_spec b NEG_ZERO) as [E|NE].
+  - subst b. vm_compute. reflexivity.
+  - unfold f_add. change (b32 0) with (B754_zero 24 128 false).
+    rewrite <- (bits32_b32 b Hb) at 2.
+    assert (Hnz : b32 b <> B754_zero 24 128 true).
+    { intro E. apply NE. rewrite <- (bits32_b32 b Hb), E. reflexivity. }
+    f_equal. destruct (b32 b) as [s|s|s pl Hpl|s m e He]; try reflexivity.
+    destruct s; [contradiction Hnz; reflexivity | reflexivity].
+Qed.
+
+Lemma new_via_adder_eq : forall b, b < TWO32 -> new_via_adder b = new b.
+Proof.
+  intros b Hb. unfold new_via_adder, new.
+  destruct (is_nan b); [reflexivity|]. destruct (is_subnormal b); [reflexivity|].
+  apply f_add_pos_zero. exact Hb.
 Qed.
 
 (* the checked-in table: 1025 entries, starts at +0.0, ends at 1.0, non-decreasing as bit patterns
@@ -551,4 +610,473 @@ Proof.
   change (0 mod M64) with 0 in E0. rewrite N.lxor_0_r in E0.
   apply rotl64_zero in E0; [|exact H0|reflexivity].
   apply N.lxor_eq in E1. subst. apply Hnz. reflexivity.
+Qed.
+
+(* ------------------------------------------------------------------ Part F: the from_axis_angle overflow *)
+Open Scope N_scope.
+
+Definition all_finite (l : list N) : bool := forallb is_finite l.
+Definition has_nan (l : list N) : bool := existsb is_nan l.
+Definition q4_list (q : quat) : list N := let '(a, b, c, d) := q in [a; b; c; d].
+
+(* FULL statement one would like (totality on finite input):
+     forall axis angle, all finite -> no component of from_axis_angle axis angle is NaN.
+   It is FALSE of the faithful model: the degenerate-axis guard tests len_sq (which overflows to +inf
+   and passes), det_sqrt_f32 clamps +inf to 0.0, and 1.0 / 0.0 = inf poisons the components. *)
+Lemma from_axis_angle_nan_witness :
+  exists ax ay az angle,
+    all_finite [ax; ay; az; angle] = true /\
+    has_nan (q4_list (q_from_axis_angle flocq_prims (ax, ay, az) angle)) = true /\
+    is_inf (v_dot flocq_prims (ax, ay, az) (ax, ay, az)) = true.
+Proof. exists 0x60ad78ec, 0, 0, ONE. vm_compute. repeat split; reflexivity. Qed.
+
+(* ------------------------------------------------------------------ Part G: range of the interpolation (Flocq reals) *)
+Open Scope N_scope.
+
+Notation fexp32 := (FLT_exp (3 - 128 - 24) 24).
+Notation rnd32 := (round radix2 fexp32 (round_mode mode_NE)).
+Notation R32 := (B2R 24 128).
+Notation fin32 := (Binary.is_finite 24 128).
+
+#[local] Existing Instance Hp24.
+#[local] Existing Instance Hpe24.
+
+Definition Ble32 (x y : binary32) : bool :=
+  match b32_compare x y with Some Lt | Some Eq => true | _ => false end.
+
+Lemma b32_bits32 : forall f : binary32, b32 (bits32 f) = f.
+Proof.
+  intro f. unfold b32, bits32, b32_of_bits, bits_of_b32.
+  pose proof (bits_of_binary_float_range 23 8 eq_refl eq_refl f) as H.
+  rewrite Z2N.id by lia. exact (binary_float_of_bits_of_binary_float 23 8 eq_refl eq_refl eq_refl f).
+Qed.
+
+Lemma f_le_Ble : forall a b, f_le a b = Ble32 (b32 a) (b32 b).
+Proof. reflexivity. Qed.
+
+Lemma Ble32_R : forall x y, fin32 x = true -> fin32 y = true ->
+  (Ble32 x y = true <-> (R32 x <= R32 y)%R).
+Proof.
+  intros x y Fx Fy. unfold Ble32, b32_compare. rewrite Bcompare_correct by assumption.
+  destruct (Rcompare_spec (R32 x) (R32 y)); split; intro H0; try reflexivity; try discriminate; lra.
+Qed.
+
+Lemma R32_zero : R32 (b32 0) = 0%R.
+Proof. reflexivity. Qed.
+
+Lemma R32_one : R32 (b32 ONE) = 1%R.
+Proof.
+  unfold ONE. vm_compute (b32 _). unfold B2R, F2R; simpl. lra.
+Qed.
+
+Definition in01 (a : N) : bool := f_le 0 a && f_le a ONE.
+
+Lemma in01_spec : forall a, in01 a = true -> fin32 (b32 a) = true /\ (0 <= R32 (b32 a) <= 1)%R.
+Proof.
+  intros a H. unfold in01 in H. apply andb_true_iff in H. destruct H as [H0 H1].
+  rewrite f_le_Ble in H0, H1.
+  assert (F : fin32 (b32 a) = true).
+  { destruct (b32 a) as [s|s|s pl e|s m e He]; try reflexivity.
+    - destruct s; [vm_compute in H0 | vm_compute in H1]; discriminate.
+    - vm_compute in H0. discriminate. }
+  split; [exact F|].
+  apply Ble32_R in H0; [|reflexivity|exact F]. apply Ble32_R in H1; [|exact F|reflexivity].
+  rewrite R32_zero in H0. rewrite R32_one in H1. lra.
+Qed.
+
+Lemma in01_intro : forall f : binary32, fin32 f = true -> (0 <= R32 f <= 1)%R -> in01 (bits32 f) = true.
+Proof.
+  intros f F H. unfold in01. rewrite !f_le_Ble, b32_bits32. apply andb_true_iff. split.
+  - apply Ble32_R; [reflexivity|exact F|]. rewrite R32_zero. lra.
+  - apply Ble32_R; [exact F|reflexivity|]. rewrite R32_one. lra.
+Qed.
+
+Definition seg_ok (i : N) : bool :=
+  let y0 := lut i in let y1 := lut (i + 1) in
+  let d := f_sub y1 y0 in let s := f_add y0 d in
+  in01 y0 && in01 y1 && in01 d && in01 s.
+
+Definition seg_indices : list N := map N.of_nat (seq 0 1024).
+
+Lemma seg_table_ok : forallb seg_ok seg_indices = true.
+Proof. vm_compute. reflexivity. Qed.
+
+Lemma seg_ok_all : forall i, i < 1024 -> seg_ok i = true.
+Proof.
+  intros i Hi. pose proof seg_table_ok as H. rewrite forallb_forall in H. apply H.
+  unfold seg_indices. rewrite <- (N2Nat.id i). apply in_map. apply in_seq. lia.
+Qed.
+
+Lemma rnd32_mono : forall x y, (x <= y)%R -> (rnd32 x <= rnd32 y)%R.
+Proof. intros x y H. apply round_le; [apply FLT_exp_valid; exact Hp24 | apply valid_rnd_round_mode | exact H]. Qed.
+
+Lemma rnd32_id : forall f : binary32, rnd32 (R32 f) = R32 f.
+Proof. intro f. apply round_generic; auto with typeclass_instances. apply generic_format_B2R. Qed.
+
+Lemma rnd32_0 : rnd32 0 = 0%R.
+Proof. apply round_0. auto with typeclass_instances. Qed.
+
+Lemma rnd32_1 : rnd32 1 = 1%R.
+Proof. rewrite <- R32_one. apply rnd32_id. Qed.
+
+Lemma small_lt_emax : forall x, (0 <= x <= 1)%R -> Rlt_bool (Rabs x) (bpow radix2 128) = true.
+Proof.
+  intros x H. apply Rlt_bool_true. rewrite Rabs_pos_eq by lra.
+  apply Rle_lt_trans with 1%R; [lra|]. change 1%R with (bpow radix2 0). apply bpow_lt. lia.
+Qed.
+
+Lemma R32_two : R32 (b32 TWO) = 2%R.
+Proof. unfold TWO. vm_compute (b32 _). unfold B2R, F2R; simpl. lra. Qed.
+
+Lemma rnd32_2 : rnd32 2 = 2%R.
+Proof. rewrite <- R32_two. apply rnd32_id. Qed.
+
+Lemma le2_lt_emax : forall x, (0 <= x <= 2)%R -> Rlt_bool (Rabs x) (bpow radix2 128) = true.
+Proof.
+  intros x H. apply Rlt_bool_true. rewrite Rabs_pos_eq by lra.
+  apply Rle_lt_trans with 2%R; [lra|]. change 2%R with (bpow radix2 1). apply bpow_lt. lia.
+Qed.
+
+Lemma b32_mult_correct : forall x y : binary32,
+  if Rlt_bool (Rabs (rnd32 (R32 x * R32 y))) (bpow radix2 128)
+  then R32 (b32_mult mode_NE x y) = rnd32 (R32 x * R32 y) /\
+       fin32 (b32_mult mode_NE x y) = fin32 x && fin32 y /\ True
+  else True.
+Proof.
+  intros x y. unfold b32_mult.
+  match goal with |- context [Bmult 24 128 ?h1 ?h2 _ _ _ _] =>
+    pose proof (Bmult_correct 24 128 h1 h2 binop_nan_pl32 mode_NE x y) as H end.
+  change (SpecFloat.fexp 24 128) with fexp32 in H.
+  destruct (Rlt_bool _ _); [|exact I]. destruct H as [H1 [H2 _]]. repeat split; assumption.
+Qed.
+
+Lemma b32_plus_correct : forall x y : binary32, fin32 x = true -> fin32 y = true ->
+  if Rlt_bool (Rabs (rnd32 (R32 x + R32 y))) (bpow radix2 128)
+  then R32 (b32_plus mode_NE x y) = rnd32 (R32 x + R32 y) /\ fin32 (b32_plus mode_NE x y) = true /\ True
+  else True.
+Proof.
+  intros x y Fx Fy. unfold b32_plus.
+  match goal with |- context [Bplus 24 128 ?h1 ?h2 _ _ _ _] =>
+    pose proof (Bplus_correct 24 128 h1 h2 binop_nan_pl32 mode_NE x y Fx Fy) as H end.
+  change (SpecFloat.fexp 24 128) with fexp32 in H.
+  destruct (Rlt_bool _ _); [|exact I]. destruct H as [H1 [H2 _]]. repeat split; assumption.
+Qed.
+
+Lemma interp_step_abstract : forall y0 y1 frac,
+  in01 y0 = true -> in01 y1 = true -> in01 (f_sub y1 y0) = true -> in01 (f_add y0 (f_sub y1 y0)) = true ->
+  in01 frac = true ->
+  in01 (f_add y0 (f_mul frac (f_sub y1 y0))) = true.
+Proof.
+  intros y0 y1 frac Hs1 Hs2 Hs3 Hs4 Hf.
+  destruct (in01_spec _ Hs1) as [Fy0 Ry0]. destruct (in01_spec _ Hs2) as [Fy1 Ry1].
+  destruct (in01_spec _ Hs3) as [Fd Rd]. destruct (in01_spec _ Hs4) as [Fs Rs].
+  destruct (in01_spec _ Hf) as [Ff Rf].
+  unfold f_sub in *. rewrite b32_bits32 in Fd, Rd.
+  set (D := b32_minus mode_NE (b32 y1) (b32 y0)) in *.
+  unfold f_add in Fs, Rs. rewrite !b32_bits32 in Fs, Rs.
+  unfold f_add, f_mul. rewrite !b32_bits32.
+  (* the product *)
+  set (Pm := b32_mult mode_NE (b32 frac) D).
+  assert (HP : fin32 Pm = true /\ (0 <= R32 Pm <= R32 D)%R).
+  { assert (H := b32_mult_correct (b32 frac) D). fold Pm in H.
+    assert (Hb : (0 <= rnd32 (R32 (b32 frac) * R32 D) <= R32 D)%R).
+    { split.
+      - rewrite <- rnd32_0. apply rnd32_mono. apply Rmult_le_pos; lra.
+      - rewrite <- (rnd32_id D) at 2. apply rnd32_mono.
+        rewrite <- (Rmult_1_l (R32 D)) at 2. apply Rmult_le_compat_r; lra. }
+    rewrite small_lt_emax in H by lra.
+    destruct H as [H1 [H2 _]]. rewrite Ff, Fd in H2. split; [exact H2|]. rewrite H1. exact Hb. }
+  destruct HP as [FP RP].
+  (* the table bound: y0 + d rounds to at most 1 *)
+  assert (HS : (rnd32 (R32 (b32 y0) + R32 D) <= 1)%R).
+  { assert (H := b32_plus_correct (b32 y0) D Fy0 Fd).
+    assert (Hb : (0 <= rnd32 (R32 (b32 y0) + R32 D) <= 2)%R).
+    { split; [rewrite <- rnd32_0 | rewrite <- rnd32_2]; apply rnd32_mono; lra. }
+    rewrite le2_lt_emax in H by exact Hb.
+    destruct H as [H1 _]. rewrite <- H1. lra. }
+  (* the sum *)
+  assert (H := b32_plus_correct (b32 y0) Pm Fy0 FP).
+  assert (Hb : (0 <= rnd32 (R32 (b32 y0) + R32 Pm) <= 1)%R).
+  { split.
+    - rewrite <- rnd32_0. apply rnd32_mono. lra.
+    - eapply Rle_trans; [|exact HS]. apply rnd32_mono. lra. }
+  rewrite small_lt_emax in H by exact Hb.
+  destruct H as [H1 [H2 _]].
+  apply in01_intro; [exact H2|]. rewrite H1. exact Hb.
+Qed.
+
+Lemma interp_step_in01 : forall i frac, i < 1024 -> in01 frac = true ->
+  in01 (f_add (lut i) (f_mul frac (f_sub (lut (i + 1)) (lut i)))) = true.
+Proof.
+  intros i frac Hi Hf.
+  pose proof (seg_ok_all i Hi) as Hs. unfold seg_ok in Hs.
+  apply andb_true_iff in Hs. destruct Hs as [Hs Hs4].
+  apply andb_true_iff in Hs. destruct Hs as [Hs Hs3].
+  apply andb_true_iff in Hs. destruct Hs as [Hs1 Hs2].
+  apply interp_step_abstract; assumption.
+Qed.
+
+
+(* ---- the side conditions of the interpolation: index below 1024 and fraction in [0, 1] *)
+Lemma b32_div_correct : forall x y : binary32, R32 y <> 0%R ->
+  if Rlt_bool (Rabs (rnd32 (R32 x / R32 y))) (bpow radix2 128)
+  then R32 (b32_div mode_NE x y) = rnd32 (R32 x / R32 y) /\ fin32 (b32_div mode_NE x y) = fin32 x /\ True
+  else True.
+Proof.
+  intros x y Hy. unfold b32_div.
+  match goal with |- context [Bdiv 24 128 ?h1 ?h2 _ _ _ _] =>
+    pose proof (Bdiv_correct 24 128 h1 h2 binop_nan_pl32 mode_NE x y Hy) as H end.
+  change (SpecFloat.fexp 24 128) with fexp32 in H.
+  destruct (Rlt_bool _ _); [|exact I]. destruct H as [H1 [H2 _]]. repeat split; assumption.
+Qed.
+
+Lemma b32_minus_correct : forall x y : binary32, fin32 x = true -> fin32 y = true ->
+  if Rlt_bool (Rabs (rnd32 (R32 x - R32 y))) (bpow radix2 128)
+  then R32 (b32_minus mode_NE x y) = rnd32 (R32 x - R32 y) /\ fin32 (b32_minus mode_NE x y) = true /\ True
+  else True.
+Proof.
+  intros x y Fx Fy. unfold b32_minus.
+  match goal with |- context [Bminus 24 128 ?h1 ?h2 _ _ _ _] =>
+    pose proof (Bminus_correct 24 128 h1 h2 binop_nan_pl32 mode_NE x y Fx Fy) as H end.
+  change (SpecFloat.fexp 24 128) with fexp32 in H.
+  destruct (Rlt_bool _ _); [|exact I]. destruct H as [H1 [H2 _]]. repeat split; assumption.
+Qed.
+
+Lemma R32_seg : R32 (b32 SIN_QTR_SEGMENTS_F32) = 1024%R.
+Proof. unfold SIN_QTR_SEGMENTS_F32. vm_compute (b32 _). unfold B2R, F2R; simpl. lra. Qed.
+
+Lemma R32_2048 : R32 (b32 0x45000000) = 2048%R.
+Proof. vm_compute (b32 _). unfold B2R, F2R; simpl. lra. Qed.
+
+Lemma R32_pi2 : (1.5 <= R32 (b32 FRAC_PI_2) <= 1.6)%R.
+Proof. unfold FRAC_PI_2. vm_compute (b32 _). unfold B2R, F2R; simpl. lra. Qed.
+
+Lemma rnd32_2048 : rnd32 2048 = 2048%R.
+Proof. rewrite <- R32_2048. apply rnd32_id. Qed.
+
+Lemma le2048_lt_emax : forall x, (0 <= x <= 2048)%R -> Rlt_bool (Rabs x) (bpow radix2 128) = true.
+Proof.
+  intros x H. apply Rlt_bool_true. rewrite Rabs_pos_eq by lra.
+  apply Rle_lt_trans with 2048%R; [lra|]. change 2048%R with (bpow radix2 11). apply bpow_lt. lia.
+Qed.
+
+Lemma rnd32_small_int : forall z, (0 <= z < 1024)%Z -> rnd32 (IZR z) = IZR z.
+Proof.
+  intros z Hz. apply round_generic; [apply valid_rnd_round_mode|].
+  apply generic_format_FLT.
+  apply (FLT_spec radix2 (3 - 128 - 24) 24 (IZR z) (Float radix2 z 0)); simpl.
+  - unfold F2R; simpl. lra.
+  - lia.
+  - lia.
+Qed.
+
+Lemma in0h_spec : forall a, f_le 0 a = true -> f_le a FRAC_PI_2 = true ->
+  fin32 (b32 a) = true /\ (0 <= R32 (b32 a) <= 1.6)%R.
+Proof.
+  intros a H0 H1. rewrite f_le_Ble in H0, H1.
+  assert (F : fin32 (b32 a) = true).
+  { destruct (b32 a) as [s|s|s pl e|s m e He]; try reflexivity.
+    - destruct s; [vm_compute in H0 | vm_compute in H1]; discriminate.
+    - vm_compute in H0. discriminate. }
+  split; [exact F|].
+  apply Ble32_R in H0; [|reflexivity|exact F]. apply Ble32_R in H1; [|exact F|reflexivity].
+  rewrite R32_zero in H0. pose proof R32_pi2. lra.
+Qed.
+
+Lemma Btrunc_floor : forall T : binary32, (0 <= R32 T)%R -> Btrunc 24 128 T = Zfloor (R32 T).
+Proof.
+  intros T H. apply eq_IZR. rewrite (Btrunc_correct 24 128 Hpe24), round_FIX_IZR. rewrite Ztrunc_floor by exact H. reflexivity.
+Qed.
+
+Lemma floor_bounds : forall x, (0 <= x < 1024)%R -> (0 <= Zfloor x < 1024)%Z.
+Proof.
+  intros x [H0 H1]. split.
+  - apply Zfloor_lub. exact H0.
+  - apply lt_IZR. apply Rle_lt_trans with x; [apply Zfloor_lb | exact H1].
+Qed.
+
+Lemma sub_self_in01 : forall T : binary32, fin32 T = true -> in01 (bits32 (b32_minus mode_NE T T)) = true.
+Proof.
+  intros T F. pose proof (b32_minus_correct T T F F) as H.
+  replace (R32 T - R32 T)%R with 0%R in H by lra. rewrite rnd32_0 in H.
+  rewrite small_lt_emax in H by lra. destruct H as [H1 [H2 _]].
+  apply in01_intro; [exact H2|]. rewrite H1. lra.
+Qed.
+
+Lemma interp_side : forall a, f_le 0 a = true -> f_le a FRAC_PI_2 = true ->
+  let t := f_div (f_mul a SIN_QTR_SEGMENTS_F32) FRAC_PI_2 in
+  f_le SIN_QTR_SEGMENTS_F32 t = false ->
+  f_idx t < 1024 /\ in01 (f_sub t (f_truncf t)) = true.
+Proof.
+  intros a H0 H1 t Hlt.
+  destruct (in0h_spec a H0 H1) as [FA RA].
+  (* m = a * 1024 *)
+  set (M := b32_mult mode_NE (b32 a) (b32 SIN_QTR_SEGMENTS_F32)).
+  assert (HM : fin32 M = true /\ (0 <= R32 M <= 2048)%R).
+  { pose proof (b32_mult_correct (b32 a) (b32 SIN_QTR_SEGMENTS_F32)) as H. fold M in H.
+    rewrite R32_seg in H.
+    assert (Hb : (0 <= rnd32 (R32 (b32 a) * 1024) <= 2048)%R).
+    { split; [rewrite <- rnd32_0 | rewrite <- rnd32_2048]; apply rnd32_mono; lra. }
+    rewrite le2048_lt_emax in H by exact Hb. destruct H as [E1 [E2 _]].
+    split; [rewrite E2, FA; reflexivity | rewrite E1; exact Hb]. }
+  destruct HM as [FM RM].
+  (* t = m / (pi/2) *)
+  set (T := b32_div mode_NE M (b32 FRAC_PI_2)).
+  assert (Et : b32 t = T).
+  { unfold t, f_div, f_mul. rewrite !b32_bits32. reflexivity. }
+  pose proof R32_pi2 as Hpi.
+  assert (HT : fin32 T = true /\ (0 <= R32 T <= 2048)%R).
+  { assert (Hnz : R32 (b32 FRAC_PI_2) <> 0%R) by lra.
+    pose proof (b32_div_correct M (b32 FRAC_PI_2) Hnz) as H. fold T in H.
+    assert (Hq : (0 <= R32 M / R32 (b32 FRAC_PI_2) <= 2048)%R).
+    { split.
+      - apply Rmult_le_pos; [lra|]. apply Rlt_le. apply Rinv_0_lt_compat. lra.
+      - apply Rle_trans with (R32 M / 1)%R; [|lra].
+        unfold Rdiv. apply Rmult_le_compat_l; [lra|]. apply Rinv_le; lra. }
+    assert (Hb : (0 <= rnd32 (R32 M / R32 (b32 FRAC_PI_2)) <= 2048)%R).
+    { split; [rewrite <- rnd32_0 | rewrite <- rnd32_2048]; apply rnd32_mono; lra. }
+    rewrite le2048_lt_emax in H by exact Hb. destruct H as [E1 [E2 _]].
+    split; [rewrite E2; exact FM | rewrite E1; exact Hb]. }
+  destruct HT as [FT RT].
+  assert (HT1024 : (R32 T < 1024)%R).
+  { rewrite f_le_Ble, Et in Hlt.
+    destruct (Rlt_le_dec (R32 T) 1024) as [Hl|Hg]; [exact Hl|exfalso].
+    assert (Hc : Ble32 (b32 SIN_QTR_SEGMENTS_F32) T = true).
+    { apply Ble32_R; [reflexivity | exact FT | rewrite R32_seg; exact Hg]. }
+    rewrite Hc in Hlt. discriminate. }
+  assert (Hz : (0 <= Btrunc 24 128 T < 1024)%Z).
+  { rewrite Btrunc_floor by lra. apply floor_bounds. lra. }
+  split.
+  - unfold f_idx. rewrite Et. destruct T as [s|s|s pl e|s m e He]; try discriminate FT; try reflexivity.
+    apply N.min_lt_iff. left. lia.
+  - unfold f_sub. unfold f_truncf. rewrite Et.
+    destruct T as [s|s|s pl e|s m e He] eqn:ET; try discriminate FT.
+    + rewrite b32_bits32. rewrite <- ET. apply sub_self_in01. rewrite ET. reflexivity.
+    + destruct (0 <=? e)%Z.
+      * rewrite b32_bits32. rewrite <- ET. apply sub_self_in01. rewrite ET. reflexivity.
+      * rewrite <- ET in *. unfold of_Z32. rewrite b32_bits32.
+        set (z := Btrunc 24 128 T) in *.
+        pose proof (binary_normalize_correct 24 128 Hp24 Hpe24 mode_NE z 0 s) as H.
+        change (SpecFloat.fexp 24 128) with fexp32 in H.
+        assert (EF : F2R (Float radix2 z 0) = IZR z) by (unfold F2R; simpl; lra).
+        rewrite EF in H. rewrite rnd32_small_int in H by exact Hz.
+        assert (Hzr : (0 <= IZR z <= 2048)%R).
+        { split; [apply IZR_le; lia | apply IZR_le; lia]. }
+        rewrite le2048_lt_emax in H by exact Hzr.
+        destruct H as [E1 [E2 _]].
+        set (TR := binary_normalize 24 128 Hp24 Hpe24 mode_NE z 0 s) in *.
+        pose proof (b32_minus_correct T TR FT E2) as H.
+        rewrite E1 in H.
+        assert (Hfl : (0 <= R32 T - IZR z <= 1)%R).
+        { unfold z. rewrite Btrunc_floor by lra.
+          pose proof (Zfloor_lb (R32 T)). pose proof (Zfloor_ub (R32 T)). lra. }
+        assert (Hb : (0 <= rnd32 (R32 T - IZR z) <= 1)%R).
+        { split; [rewrite <- rnd32_0 | rewrite <- rnd32_1]; apply rnd32_mono; lra. }
+        rewrite small_lt_emax in H by exact Hb. destruct H as [G1 [G2 _]].
+        apply in01_intro; [exact G2 | rewrite G1; exact Hb].
+Qed.
+
+(* float order and bit order agree on [0, 1]: a 32-bit pattern that the float comparison places in [0, 1]
+   is at most the pattern of 1.0, or is -0.0 *)
+Lemma in01_bits : forall v, v < TWO32 -> in01 v = true -> v <= ONE \/ v = NEG_ZERO.
+Proof.
+  intros v Hv Hin. destruct (in01_spec v Hin) as [F R].
+  unfold b32, b32_of_bits, binary_float_of_bits in F, R.
+  rewrite B2R_FF2B in R. rewrite is_finite_FF2B in F.
+  unfold binary_float_of_bits_aux, split_bits in F, R.
+  set (x := Z.of_N v) in *.
+  assert (Hx : (0 <= x < 4294967296)%Z) by (unfold x, TWO32 in *; lia).
+  change (2 ^ 23)%Z with 8388608%Z in *. change (2 ^ 8)%Z with 256%Z in *.
+  change (8388608 * 256)%Z with 2147483648%Z in *.
+  change (256 - 1)%Z with 255%Z in *.
+  set (mx := (x mod 8388608)%Z) in *. set (ex := ((x / 8388608) mod 256)%Z) in *.
+  assert (Hmx : (0 <= mx < 8388608)%Z) by (unfold mx; lia).
+  assert (Hex : (0 <= ex < 256)%Z) by (unfold ex; lia).
+  assert (Hdec : (x = (if Zle_bool 2147483648 x then 2147483648 else 0) + ex * 8388608 + mx)%Z).
+  { unfold mx, ex. destruct (Zle_bool 2147483648 x) eqn:E; [apply Zle_bool_imp_le in E | apply Z.leb_gt in E]; lia. }
+  destruct (Zle_bool 2147483648 x) eqn:Es.
+  - (* sign bit set: only -0.0 is possible *)
+    right. destruct (Zeq_bool ex 0) eqn:E0.
+    + apply Zeq_bool_eq in E0. destruct mx as [|p|p] eqn:Em.
+      * unfold NEG_ZERO. lia.
+      * exfalso. cbn [FF2R cond_Zopp] in R. 
+        match type of R with (0 <= ?t <= 1)%R => assert (Hneg : (t < 0)%R) by (apply F2R_lt_0; reflexivity) end.
+        lra.
+      * discriminate F.
+    + destruct (Zeq_bool ex 255) eqn:E1.
+      * destruct mx; simpl in F; discriminate F.
+      * destruct (mx + 8388608)%Z as [|p|p] eqn:Em; try discriminate F.
+        exfalso. cbn [FF2R cond_Zopp] in R.
+        match type of R with (0 <= ?t <= 1)%R => assert (Hneg : (t < 0)%R) by (apply F2R_lt_0; reflexivity) end.
+        lra.
+  - (* sign bit clear *)
+    left. destruct (Zeq_bool ex 0) eqn:E0.
+    + apply Zeq_bool_eq in E0. unfold ONE. lia.
+    + destruct (Zeq_bool ex 255) eqn:E1.
+      * destruct mx; simpl in F; discriminate F.
+      * apply Zeq_bool_neq in E0. apply Zeq_bool_neq in E1.
+        destruct (mx + 8388608)%Z as [|p|p] eqn:Em; try discriminate F.
+        cbn [FF2R cond_Zopp] in R. change (SpecFloat.emin (23 + 1) (2 ^ (8 - 1))) with (-149)%Z in R.
+        destruct (Z_le_gt_dec x 1065353216) as [Hle|Hgt]; [unfold ONE; lia|exfalso].
+        (* x > bits(1.0): exponent field >= 128, or = 127 with a non-zero mantissa field *)
+        assert (Hcase : (128 <= ex \/ (ex = 127 /\ 0 < mx))%Z) by lia.
+        unfold F2R in R. cbn [Fnum Fexp] in R.
+        destruct Hcase as [H128|[H127 Hm]].
+        -- assert (Hb : (bpow radix2 (-22) <= bpow radix2 (ex + -149 - 1))%R) by (apply bpow_le; lia).
+           assert (Hp : (8388608 <= IZR (Z.pos p))%R) by (apply IZR_le; lia).
+           assert (H22 : bpow radix2 (-22) = (/ 4194304)%R) by (simpl; lra).
+           assert (Hpos : (0 < bpow radix2 (ex + -149 - 1))%R) by apply bpow_gt_0.
+           assert ((8388608 * bpow radix2 (-22) <= IZR (Z.pos p) * bpow radix2 (ex + -149 - 1))%R).
+           { apply Rmult_le_compat; try lra; try (rewrite H22; lra). }
+           rewrite H22 in *. lra.
+        -- rewrite H127 in R. replace (127 + -149 - 1)%Z with (-23)%Z in R by lia.
+           assert (H23 : bpow radix2 (-23) = (/ 8388608)%R) by (simpl; lra).
+           assert (Hp : (8388609 <= IZR (Z.pos p))%R) by (apply IZR_le; lia).
+           rewrite H23 in R. lra.
+Qed.
+
+(* ---- putting the range together *)
+Lemma sin_qtr_interp_in01 : forall a, in01 (sin_qtr_interp flocq_prims a) = true.
+Proof.
+  intro a. unfold sin_qtr_interp. cbn [p_le p_div p_mul p_idx p_sub p_truncf p_add flocq_prims].
+  destruct (f_le 0 a) eqn:H0; [|reflexivity].
+  destruct (f_le a FRAC_PI_2) eqn:H1; [|reflexivity].
+  cbn [andb negb].
+  destruct (f_le SIN_QTR_SEGMENTS_F32 _) eqn:Hs; [reflexivity|].
+  destruct (interp_side a H0 H1 Hs) as [Hi Hf].
+  apply interp_step_in01; assumption.
+Qed.
+
+Lemma fabs_le_one_of_in01 : forall v, v < TWO32 -> in01 v = true -> fabs v <= ONE.
+Proof.
+  intros v Hv H. destruct (in01_bits v Hv H) as [Hle|E].
+  - revert Hle. clear. bits.
+  - subst v. vm_compute. discriminate.
+Qed.
+
+Lemma fabs_new_le_one : forall v, v < TWO32 -> fabs v <= ONE -> fabs (new v) <= ONE.
+Proof. intros v Hv. bits. Qed.
+
+Lemma fabs_czero_le_one : forall v, v < TWO32 -> fabs v <= ONE -> fabs (czero v) <= ONE.
+Proof. intros v Hv. bits. Qed.
+
+Lemma signed_interp_le_one : forall v, signed_interp flocq_prims v -> fabs v <= ONE.
+Proof.
+  intros v [E|[a [E|E]]]; subst v.
+  - vm_compute. discriminate.
+  - apply fabs_le_one_of_in01; [apply interp_range; exact flocq_prims_wf | apply sin_qtr_interp_in01].
+  - rewrite fabs_fneg by (apply interp_range; exact flocq_prims_wf).
+    apply fabs_le_one_of_in01; [apply interp_range; exact flocq_prims_wf | apply sin_qtr_interp_in01].
+Qed.
+
+(* |sin x| <= 1 and |cos x| <= 1 for every 32-bit pattern x, under IEEE-754 binary32 RNE *)
+Lemma sin_cos_range_l : forall x, x < TWO32 ->
+  fabs (s_sin flocq_prims x) <= ONE /\ fabs (s_cos flocq_prims x) <= ONE.
+Proof.
+  intros x Hx. unfold s_sin, s_cos.
+  destruct (sin_cos_range flocq_prims flocq_prims_wf x) as [R1 R2].
+  destruct (is_finite x) eqn:Hf.
+  - destruct (sin_cos_signed_interp_l flocq_prims flocq_prims_wf x Hf) as [S1 S2].
+    split; apply fabs_new_le_one; auto using signed_interp_le_one.
+  - unfold sin_cos. rewrite Hf. cbn [negb fst snd]. split; vm_compute; discriminate.
 Qed.
